@@ -282,6 +282,15 @@ impl ExecutionEngine for DummyExecution {
     }
 
     fn end_block(&mut self, block_id: BlockId) {
+        // The hash is known from here on: file a block that was executed under
+        // its slot alone under its full ID, so that a later child naming a
+        // *different* block of this slot as parent cannot pick up this state.
+        let known = InProgressBlock::Known(block_id.clone());
+        if !self.blocks.contains_key(&known)
+            && let Some(exec) = self.blocks.remove(&InProgressBlock::Pending(block_id.0))
+        {
+            self.blocks.insert(known, exec);
+        }
         let result = self
             .blocks
             .get(&InProgressBlock::Known(block_id.clone()))
